@@ -745,7 +745,8 @@ impl Conjunction for BoundedVariantRange {
     fn conjunction(self, rhs: Self) -> Self::Output {
         match NaturalRange::by_bound_with(self.into(), rhs.into(), ops::conjunction) {
             Variance::Variant(Bounded(range)) => range,
-            _ => unreachable!(),
+            // The bounds saturated and converged.
+            _ => BoundedVariantRange::Lower(NonZeroUsize::MAX),
         }
     }
 }
@@ -782,7 +783,8 @@ impl Product for BoundedVariantRange {
     fn product(self, rhs: Self) -> Self::Output {
         match NaturalRange::by_bound_with(self.into(), rhs.into(), ops::product) {
             Variance::Variant(range) => range,
-            _ => unreachable!(),
+            // The bounds saturated and converged.
+            _ => Unbounded,
         }
     }
 }
@@ -795,7 +797,8 @@ impl Product<NonZeroUsize> for BoundedVariantRange {
 
         match NaturalRange::by_bound_with(self.into(), Invariant(rhs.into()), ops::product) {
             Variant(Bounded(range)) => range,
-            _ => unreachable!(),
+            // The bounds saturated and converged.
+            _ => BoundedVariantRange::Lower(NonZeroUsize::MAX),
         }
     }
 }
